@@ -114,6 +114,13 @@ pub fn run(ctx: &mut Ctx) {
                     let mut args = benign(k, n);
                     args[p] = e.clone();
                     ctx.check(&format!("position:{}", &name[..1]), &op(k, args), &d);
+                    // the same with degenerate neighbours (null, a missing variable, an empty array): operands
+                    // of a call that takes an early way out are still rule text, evaluated or not, never returned raw
+                    for (fname, fill) in [("null", json!(null)), ("absent", json!({"var": "nope"})), ("empty", json!([]))] {
+                        let mut args: Vec<Value> = vec![fill.clone(); n];
+                        args[p] = e.clone();
+                        ctx.check(&format!("position:{}:neighbours-{}", &name[..1], fname), &op(k, args), &d);
+                    }
                 }
             }
         }
